@@ -14,7 +14,7 @@
 //     src = u<k> (confirmed coin k, idx ignored) or a transaction name (its output idx); pad = size of an
 //     extra OP_RETURN payload (0 = none); fee is taken from the first output.
 // output:
-//   BEFORE {name modfee vsize}* DB {fee weight}* RES <ok|reject-reason> NEW {name fee vsize}* REPL {name}* AFTER {name}* DA {fee weight}*
+//   POOL {name}* ## BEFORE {name modfee vsize}* DB {fee weight}* RES <ok|reject-reason> NEW {name fee vsize}* REPL {name}* AFTER {name}* DA {fee weight}*
 //   (DB / DA: chunks of CTxMemPool::GetFeerateDiagram() before / after; names sorted)
 //   or SETUPFAIL <op index> <reason> when a history transaction is not accepted.
 #define VERIF_NO_TEST_GLOBALS
@@ -186,7 +186,7 @@ struct Driver {
                 if (it == named.end()) return "SETUPFAIL " + std::to_string(opn) + " unknown-name";
                 pool().PrioritiseTransaction(it->second->GetHash(), delta);
             } else if (op == "rbf" || op == "pkg") {
-                std::string out = "BEFORE" + pool_listing(true) + " DB" + diagram();
+                std::string out = "POOL" + pool_listing(false) + " ## BEFORE" + pool_listing(true) + " DB" + diagram();
                 std::string res_s, new_s, repl_s;
                 std::vector<std::string> repl;
                 if (op == "rbf") {
